@@ -64,6 +64,7 @@ func c18paths(c *Ctx) {
 		rxPool[i].re = regexp.MustCompile(rxPool[i].expr)
 	}
 	startCwd := cwd
+	emptying := c.X("emptying", "") == "1"
 	c.Each(func(idx int, r *gen.R) {
 		restore := withFlags(0, 0)
 		defer restore()
@@ -125,7 +126,13 @@ func c18paths(c *Ctx) {
 			return 0
 		}
 		for i := 0; i < nops; i++ {
-			switch r.Intn(10) {
+			opk := r.Intn(10)
+			if opk == 6 && !emptying {
+				// (histories that empty the plain table are put back from what the HARNESS knows about the start-up entries; to
+				// keep the library's own start-up table in place everywhere else, they run in processes of their own)
+				opk = 0
+			}
+			switch opk {
 			case 9:
 				// a directory is registered while one of its parents is, then the parent's registration is removed: the inner
 				// directory is still a registered one
